@@ -201,6 +201,8 @@ def const_val(e):
     e = peel(e, casts=True)
     if isinstance(e, tuple) and e[0] == 'const':
         return e[1]
+    if isinstance(e, tuple) and e[0] == 'field' and e[2] == '0' and isinstance(e[1], tuple) and e[1][0] == 'bin' and e[1][1].endswith('WithOverflow'):
+        return const_val(e[1])
     if isinstance(e, tuple) and e[0] == 'bin':
         a, b = const_val(e[2]), const_val(e[3])
         if a is None or b is None:
@@ -706,7 +708,12 @@ class Fn:
             a = self.operand(rv['a'], point)
             if rv['kind'].startswith('PointerCoercion') or rv['kind'] in ('PtrToPtr', 'Transmute') and False:
                 return a
-            return ('cast', rv['kind'], a, rv['ty'])
+            srcty = None
+            if rv['a']['k'] in ('copy', 'move'):
+                srcty = place_type(self, rv['a']['place'])
+            elif rv['a']['k'] == 'const':
+                srcty = rv['a'].get('ty')
+            return ('cast', rv['kind'], a, rv['ty'], srcty)
         if k == 'agg':
             ops = tuple(self.operand(o, point) for o in rv['ops'])
             if rv.get('agg') == 'adt':
@@ -727,6 +734,9 @@ class Fn:
         args = tuple(self.operand(a, pt) for a in t['args'])
         callee = t['resolved'][0] if t['resolved'] else t['callee']
         decl = t['callee']
+        m = re.match(r'^std::convert::num::<impl std::convert::From<(\w+)> for (\w+)>::from$', callee)
+        if m and len(args) == 1 and m.group(1) in INT_W and m.group(2) in INT_W:
+            return ('cast', 'IntToInt', args[0], m.group(2), m.group(1))     # lossless integer widening
         name = decl if decl in PURE_FNS or decl in TRANSPARENT or decl in UNWRAPS else callee
         # keep trait-declared name for well-known std traits so tables stay small
         if is_pure_getter(name) or is_pure_getter(callee):
@@ -778,7 +788,7 @@ class Fn:
         if k in ('un',):
             return (k, e[1], self._through(e[2], pt, depth + 1))
         if k == 'cast':
-            return (k, e[1], self._through(e[2], pt, depth + 1), e[3])
+            return (k, e[1], self._through(e[2], pt, depth + 1)) + tuple(e[3:])
         if k in ('field', 'variant'):
             return (k, self._through(e[1], pt, depth + 1), e[2])
         if k in ('discr', 'len', 'deref', 'repeat'):
@@ -1121,7 +1131,7 @@ def _binop(op, a, b, w):
     raise KeyError(op)
 
 
-def eval_region(fn, entry, env, max_steps=2000, stop_at=None):
+def eval_region(fn, entry, env, max_steps=2000, stop_at=None, menv=None, assume_asserts=False, until_assert=None):
     """Concretely evaluate MIR from block `entry` with env {local: int|tuple}.
     Only pure integer statements, switches, gotos and asserts are interpreted; the first
     other terminator ends the region.  Returns (kind, block, env):
@@ -1136,8 +1146,14 @@ def eval_region(fn, entry, env, max_steps=2000, stop_at=None):
     def width(l):
         return INT_W.get(fn.locals[l]['ty'], 64)
 
+    menv = dict(menv or {})
+
     def rd_place(p):
         l, pr = p['l'], p['p']
+        if pr and menv:
+            k = json.dumps(p, sort_keys=True)
+            if k in menv:
+                return menv[k]
         if not pr:
             return env[l]
         if pr == ['deref']:
@@ -1166,7 +1182,9 @@ def eval_region(fn, entry, env, max_steps=2000, stop_at=None):
             lhs, rv = s['lhs'], s['rv']
             k = rv['k']
             if lhs['p']:
-                # store into memory: not part of a pure guard, but harmless if never read back
+                # store into memory: forget what we knew about it
+                if menv:
+                    menv.pop(json.dumps(lhs, sort_keys=True), None)
                 continue
             l = lhs['l']
             try:
@@ -1214,9 +1232,17 @@ def eval_region(fn, entry, env, max_steps=2000, stop_at=None):
         elif t['k'] == 'goto':
             bi = t['target']
         elif t['k'] == 'assert':
+            if until_assert is not None and bi == until_assert:
+                try:
+                    return ('cond', bi, env, rd(t['cond']))
+                except KeyError:
+                    return ('cond', bi, env, None)
             try:
                 c = rd(t['cond'])
             except KeyError:
+                if assume_asserts:
+                    bi = t['target']
+                    continue
                 return ('stuck', bi, env)
             if bool(c) == bool(t['expected']):
                 bi = t['target']
